@@ -170,6 +170,28 @@ Definition alloc_kind (s : slot) (pod : Z) (nc : bool) (pin : Z) (erdma : bool) 
          end
   end.
 
+(* AllocatingRequests.Len() filters the slice IN PLACE (requests whose worker context is done leave it).  The factory
+   worker calls it at its loop head — `allocatingV4.Len() <= 0 && allocatingV6.Len() <= 0`: the IPv6 queue is only looked
+   at when the IPv4 one is empty — and again, on both queues, when it sizes a call after the sleep. *)
+Definition prune_q (s : slot) (f : fid) : slot :=
+  let x := fget s f in fset s f (with_q x (prune (s_reqs s) (f_alloc x)) (f_dang x)).
+Definition prune_both (s : slot) : slot := prune_q (prune_q s F4) F6.
+(* both are of this shape: only the two allocating lists change *)
+Definition set_allocs (s : slot) (a4 a6 : list Z) : slot :=
+  fset (fset s F4 (with_q (s_4 s) a4 (f_dang (s_4 s)))) F6 (with_q (s_6 s) a6 (f_dang (s_6 s))).
+Definition loop_head (s : slot) : slot :=
+  let s1 := prune_q s F4 in if plen s1 F4 <=? 0 then prune_q s1 F6 else s1.
+
+(* Local.Allocate sizes each enabled family with `len(set) + allocating.Len() >= cap`, and Len() filters the queue in
+   place: the IPv4 queue whenever that test is reached (a no-cache request, or no address the pod could take), the IPv6
+   queue likewise unless IPv4 already answered Full. *)
+Definition adm_prune (s : slot) (pod : Z) (nc : bool) : slot :=
+  let e4 := f_on (s_4 s) && (nc || negb (avail pod (f_set (s_4 s)))) in
+  let s1 := if e4 then prune_q s F4 else s in
+  let full4 := e4 && (s_cap s <=? setlen s F4 + plen s F4) in
+  let e6 := f_on (s_6 s) && negb full4 && (nc || negb (avail pod (f_set (s_6 s)))) in
+  if e6 then prune_q s1 F6 else s1.
+
 Definition new_req (pod : Z) (nc direct : bool) (d4 d6 : Z) (k4 k6 : bool) := mkReq pod nc false false false direct d4 d6 k4 k6.
 
 (* ---- worker exit: switchIPv4/6 + request.cancel() (local.go:562-571, 1174-1217) -------- *)
@@ -239,18 +261,6 @@ Definition fw_guard (s : slot) : bool :=
   && (match s_st s with SInit | SInUse => true | _ => false end)
   && (s_inh s <=? s_now s).
 
-(* AllocatingRequests.Len() filters the slice IN PLACE (requests whose worker context is done leave it).  The factory
-   worker calls it at its loop head — `allocatingV4.Len() <= 0 && allocatingV6.Len() <= 0`: the IPv6 queue is only looked
-   at when the IPv4 one is empty — and again, on both queues, when it sizes a call after the sleep. *)
-Definition prune_q (s : slot) (f : fid) : slot :=
-  let x := fget s f in fset s f (with_q x (prune (s_reqs s) (f_alloc x)) (f_dang x)).
-Definition prune_both (s : slot) : slot := prune_q (prune_q s F4) F6.
-(* both are of this shape: only the two allocating lists change *)
-Definition set_allocs (s : slot) (a4 a6 : list Z) : slot :=
-  fset (fset s F4 (with_q (s_4 s) a4 (f_dang (s_4 s)))) F6 (with_q (s_6 s) a6 (f_dang (s_6 s))).
-Definition loop_head (s : slot) : slot :=
-  let s1 := prune_q s F4 in if plen s1 F4 <=? 0 then prune_q s1 F6 else s1.
-
 Fixpoint nodupz (l : list Z) : bool := match l with [] => true | x :: r => negb (memz x r) && nodupz r end.
 Definition subsetz (a b : list Z) : bool := forallb (fun x => memz x b) a.
 Definition fresh_ips (ips : list Z) (s : iset) : bool :=
@@ -319,7 +329,7 @@ Definition step (s : slot) (l : label) : option slot :=
   match l with
   | LAllocReject pod nc pin erdma reason =>
       match alloc_kind s pod nc pin erdma with
-      | KReject k => if k =? reason then Some s else None
+      | KReject k => if k =? reason then Some (if (k =? 3) || (k =? 4) then adm_prune s pod nc else s) else None
       | _ => None end
   | LAllocDirect r pod pin erdma c4 c6 =>
       match alloc_kind s pod false pin erdma, rfind r (s_reqs s) with
@@ -339,6 +349,7 @@ Definition step (s : slot) (l : label) : option slot :=
       | KEnqueue e4 e6, None =>
           if unfinished_for s pod then None
           else
+          let s := adm_prune s pod nc in
           let s1 := if e4 then fset s F4 (with_q (s_4 s) (f_alloc (s_4 s) ++ [r]) (f_dang (s_4 s))) else s in
           let s2 := if e6 then fset s1 F6 (with_q (s_6 s1) (f_alloc (s_6 s1) ++ [r]) (f_dang (s_6 s1))) else s1 in
           Some (with_reqs s2 (rput r (new_req pod nc false 0 0 false false) (s_reqs s2)))
